@@ -5,6 +5,7 @@ import (
 	"strings"
 
 	"golang.org/x/exp/maps"
+	"golang.org/x/exp/slices"
 )
 
 /**
@@ -839,7 +840,7 @@ func (m *stringMap) Get(k Value) (Value, bool) {
 
 func (m *stringMap) Set(k, v Value) {
 	key := string(k.value.(stringT))
-	if _, ok := m.data[key]; !ok {
+	if _, ok := m.data[key]; !ok && (len(m.keys) == len(m.data) || !slices.Contains(m.keys, key)) {
 		m.keys = append(m.keys, key)
 	}
 	m.data[key] = v.assign(m.valueType)
@@ -919,7 +920,7 @@ func (m *numericMap) Get(k Value) (Value, bool) {
 
 func (m *numericMap) Set(k, v Value) {
 	key := k.num
-	if _, ok := m.data[key]; !ok {
+	if _, ok := m.data[key]; !ok && (len(m.keys) == len(m.data) || !slices.Contains(m.keys, key)) {
 		m.keys = append(m.keys, key)
 	}
 	m.data[key] = v.assign(m.valueType)
